@@ -333,7 +333,7 @@ func (te *TypeEnv) TypeInv(term string, t types.Type) string {
 		return and(parts...)
 	case *types.Basic:
 		if u.Info()&types.IsString != 0 {
-			return "true"
+			return "(<= (str.len " + term + ") 72057594037927936)" // address-space bound 2^56
 		}
 	}
 	return "true"
